@@ -135,7 +135,9 @@ def gen_entries(ctx, n):
     givens = ["CCO", "CC(=O)C", "c1ccccc1.OOC(C)(C)C", "CC(O)C.[H][H]", "O.OO", "[H]Br.CC", "[O-]C=O", "C", ""]
     adds = ["[H].[H]", "[H]", "[O]", "[O].[O]", "OO", "O", "[H].[H].[H].[H]", "[H].[H].[O]", "ClCl", "[Na+].[Cl-]",
             "[H].[H].[H]", "[O].[O].[O]", "OO.OO", "[H+]", "[OH-]", "Br", "BrBr.[H].[H]"]
-    reacts = ["CC=O", "CC(=O)C.[Na]", "[H-].CCO", "C[Li:3]", "[K:1].CC", "CCO.[H]", "CCO.[H].[H]", "OO.CC"]
+    reacts = ["CC=O", "CC(=O)C.[Na]", "[H-].CCO", "C[Li:3]", "[K:1].CC", "CCO.[H]", "CCO.[H].[H]", "OO.CC",
+              # given molecules whose text starts with an explicit hydrogen, behind another reactant / in front
+              "CCO.[H][H]", "CC.[H]/C(C)=N/C", "[H].CCO", "CCO.[H].[H][H]", "[H][H].CCO", "CC=O.[H]Cl"]
     out = []
     for _ in range(n):
         g, a, r = rng.choice(givens), rng.choice(adds), rng.choice(reacts)
